@@ -199,7 +199,7 @@ type c16Key struct{}
 
 func breakBody(r *core.Rand, it *c16Item, plain []byte) {
 	enc := compressBody(it.Coding, plain)
-	kinds := []string{"syntax", "truncated-doc", "empty"}
+	kinds := []string{"syntax", "truncated-doc", "empty", "one-byte", "two-bytes"}
 	if it.Coding != "" {
 		kinds = append(kinds, "bad-magic", "declared-but-plain", "garbage", "truncated-stream", "trailer-cut", "trailer-flip", "syntax-inside")
 	}
@@ -218,6 +218,10 @@ func breakBody(r *core.Rand, it *c16Item, plain []byte) {
 		it.body = compressBody(it.Coding, plain[:len(plain)*2/3])
 	case "empty":
 		it.body = []byte{}
+	case "one-byte":
+		it.body = append([]byte{}, enc[:1]...)
+	case "two-bytes":
+		it.body = append([]byte{}, enc[:2]...)
 	case "bad-magic":
 		it.body = append([]byte{'X', 'Y'}, enc[2:]...)
 	case "declared-but-plain":
